@@ -64,6 +64,8 @@ type Matrix []SliceU16B
 type Bigs []*big.Int
 type SortedBigs []*big.Int
 type MapLexOff map[uint8]uint8
+type MapU16U8 map[uint16]uint8
+type Bytes16 []byte
 
 // MapShared and SliceShared are registered from ONE base TypeSettings, i.e. they share one *ArrayRules (without any rule):
 // using the one type must not change how the other is written or validated.
@@ -394,6 +396,10 @@ func init() {
 	add("SortedBigs", SortedBigs{})
 	must(api.RegisterTypeSettings(MapLexOff{}, lp(b8).WithLexicalOrdering(false)))
 	add("MapLexOff", MapLexOff{})
+	must(api.RegisterTypeSettings(MapU16U8{}, lp(b8)))
+	add("MapU16U8", MapU16U8{})
+	must(api.RegisterTypeSettings(Bytes16{}, lp(b16)))
+	add("Bytes16", Bytes16{})
 	sharedBase := lp(b8).WithArrayRules(&serix.ArrayRules{})
 	must(api.RegisterTypeSettings(MapShared{}, sharedBase))
 	must(api.RegisterTypeSettings(SliceShared{}, sharedBase))
